@@ -142,3 +142,10 @@ plan("C11", "fault_enumeration",
      lambda tier: [S("C11", 1600 if tier == "quick" else 60000)],
      assumptions=["success after a benign header flip (MTIME/XFL/OS) is correct: the oracle compares the delivered bytes with the trailer actually present",
                   "the position of the trailer in a corrupted stream comes from the lenient RFC 1951 reference decoder"])
+
+plan("C07", "exploration",
+     "Systematic: for small inputs/streams every single split point of the input and of the output, and all pairs of (input chunk, output chunk) sizes from {0,1,2,7,8,9,15,16,17,31,32,33,255,256,257,328,329,big}; "
+     "generated histories (refill-before-drain, zero-length buffers, per-call flush changes, late end_of_stream, fresh mapping per chunk) for compression and decompression (valid and corrupted streams), "
+     "x levels x wrappers (gzip with FEXTRA/FNAME/FCOMMENT/FHCRC) x cpu levels. Oracle: decode == concatenated input; streaming inflate == one-shot inflate. Non-trivial: >= 3 calls with a boundary inside the data.",
+     lambda tier: [S("C07", 2400 if tier == "quick" else 120000)],
+     assumptions=["after end_of_stream no more input is supplied", "compressed bytes may differ between schedules: only decoded data is compared"])
